@@ -9,6 +9,7 @@
 #include <aws/common/byte_order.h>
 #include <aws/common/clock.h>
 #include <aws/common/string.h>
+#include <aws/common/thread.h>
 #include <aws/common/time.h>
 
 #include <ctype.h>
@@ -42,23 +43,29 @@ static uint32_t s_dec = 0;
 static uint32_t s_utc = 0;
 static uint32_t s_gmt = 0;
 
+static aws_thread_once s_str_to_int_once = AWS_THREAD_ONCE_STATIC_INIT;
+
+static void s_init_str_to_int(void *user_data) {
+    (void)user_data;
+    s_jan = STR_TRIPLET_TO_INDEX("jan");
+    s_feb = STR_TRIPLET_TO_INDEX("feb");
+    s_mar = STR_TRIPLET_TO_INDEX("mar");
+    s_apr = STR_TRIPLET_TO_INDEX("apr");
+    s_may = STR_TRIPLET_TO_INDEX("may");
+    s_jun = STR_TRIPLET_TO_INDEX("jun");
+    s_jul = STR_TRIPLET_TO_INDEX("jul");
+    s_aug = STR_TRIPLET_TO_INDEX("aug");
+    s_sep = STR_TRIPLET_TO_INDEX("sep");
+    s_oct = STR_TRIPLET_TO_INDEX("oct");
+    s_nov = STR_TRIPLET_TO_INDEX("nov");
+    s_dec = STR_TRIPLET_TO_INDEX("dec");
+    s_utc = STR_TRIPLET_TO_INDEX("utc");
+    s_gmt = STR_TRIPLET_TO_INDEX("gmt");
+}
+
+/* Threads parsing their first date concurrently must not see the table half filled in. */
 static void s_check_init_str_to_int(void) {
-    if (!s_jan) {
-        s_jan = STR_TRIPLET_TO_INDEX("jan");
-        s_feb = STR_TRIPLET_TO_INDEX("feb");
-        s_mar = STR_TRIPLET_TO_INDEX("mar");
-        s_apr = STR_TRIPLET_TO_INDEX("apr");
-        s_may = STR_TRIPLET_TO_INDEX("may");
-        s_jun = STR_TRIPLET_TO_INDEX("jun");
-        s_jul = STR_TRIPLET_TO_INDEX("jul");
-        s_aug = STR_TRIPLET_TO_INDEX("aug");
-        s_sep = STR_TRIPLET_TO_INDEX("sep");
-        s_oct = STR_TRIPLET_TO_INDEX("oct");
-        s_nov = STR_TRIPLET_TO_INDEX("nov");
-        s_dec = STR_TRIPLET_TO_INDEX("dec");
-        s_utc = STR_TRIPLET_TO_INDEX("utc");
-        s_gmt = STR_TRIPLET_TO_INDEX("gmt");
-    }
+    aws_thread_call_once(&s_str_to_int_once, s_init_str_to_int, NULL);
 }
 
 /* Get the 0-11 monthly number from a string representing Month. Case insensitive and will stop on abbreviation*/
